@@ -4,7 +4,7 @@ import json
 
 from lib import vlib
 
-MC = "SPECIFICATION Spec\nCONSTANTS\n  MaxEntries = %d\n  MaxDepth = 2\nINVARIANTS InvComplete InvHardOnlyWhenUnavoidable\nCHECK_DEADLOCK FALSE\n"
+MC = "SPECIFICATION Spec\nCONSTANTS\n  MaxEntries = %d\n  MaxDepth = %d\nINVARIANTS InvComplete InvHardOnlyWhenUnavoidable\nCHECK_DEADLOCK FALSE\n"
 ASSUMPTIONS = [
     "The input step sequence is read by the harness from the raw YAML nodes with plain yaml.v3 (not the code under test); when it cannot be read unambiguously (yaml.v3 rejects the bytes, duplicate keys, non-core tags/timestamps) only totality, marshalling and warning accounting are judged for that input.",
     "Alias expansion size is bounded: inputs whose node graph expands to more than 2e5 nodes are skipped (stated in the property).",
@@ -38,7 +38,7 @@ def run(ctx, replay):
         vlib.replay_main(ctx, replay, "c13", "Trace_ParseTotal")
         return {}, ASSUMPTIONS
     thorough = ctx.tier == "thorough"
-    a = ctx.tlc_model("MC_ParseTotal", None, cfg_text=MC % (4 if thorough else 3), label="MC_ParseTotal protocol", workers=8, timeout=3000)
+    a = ctx.tlc_model("MC_ParseTotal", None, cfg_text=MC % ((3, 3) if thorough else (3, 2)), label="MC_ParseTotal protocol", workers=8, timeout=3000)
     traces, sums = vlib.drive_gen(ctx, "c13", 8, extra=["-docs", 12 if thorough else 3, "-injectsample", 1 if thorough else 3,
                                                          "-mutations", 40000 if thorough else 3000])
     n, bad = vlib.judge(ctx, "Trace_ParseTotal", traces, timeout=3400)
